@@ -486,7 +486,40 @@ def run(t):
                 parts.append(f"_native({n}, lambda _d: {nat.replace(chr(10), chr(10) + '    ')})\n")
                 index.append((n, root, how, stages, term, src))
                 n += 1
+    # the SAME lambdas (one source location, one code object) used for several queries with
+    # different captured values: a query-building helper called repeatedly (seed C01_f: a cache
+    # of recovered lambdas keyed by the code object kept the first call's captured values)
+    BUILDS = [(1.0, 2.0), (5.0, 3.0), (-1.0, 0.5), (5.0, 3.0)]
+    parts.append("def _build(root, cut, scale):\n    return (\n        root\n"
+                 "        .Where(lambda v0: v0.met() > cut)\n"
+                 "        .Select(lambda v0: (v0.met() * scale, v0.Jets().Where(lambda j: j.pt() > cut).Count()))\n    )\n"
+                 "RB = []\n")
+    for k, (cut, scale) in enumerate(BUILDS):
+        for root in ("typed", "untyped"):
+            parts.append(f"try:\n    SENT.clear()\n    _build({root}, {cut}, {scale}).value()\n"
+                         f"    RB.append(({k}, {root!r}, 'ok', SENT[0]))\n"
+                         f"except Exception as _ex:\n    RB.append(({k}, {root!r}, 'err', _ex))\n")
+        parts.append(f"_native('b{k}', lambda _d: _build(PS(_d), {cut}, {scale}))\n")
     mod = srcgen.run_module("".join(parts), "c01")
+    for k, root, st, val in mod.RB:
+        key = f"C01:{root}:callable:_build(cut={BUILDS[k][0]}, scale={BUILDS[k][1]}) [call #{k}]"
+        t.case(key, True, sample=key)
+        t.contract("sem(sent AST, D) == native chain(D) for every call of a query-building helper")
+        rp = {"kind": "C01", "key": key}
+        if st == "err":
+            t.violation("operators/value:no-exception on a well-typed chain",
+                        f"raises {type(val).__name__}: {str(val)[:100]}", key, "a query", repr(val)[:160], rp)
+            continue
+        for di, (d, nat) in enumerate(zip(mod.DATASETS, mod.NATIVE[f"b{k}"])):
+            if nat[0] != "ok":
+                continue
+            got = sem.run(val, {"EventDataset": (lambda d=d: mod.JL(d))})
+            want = ("ok", sem.force(nat[1]))
+            if got != want:
+                t.violation("value:ensures sem(id(AST handed to the executor)) == native chain",
+                            "the query computes something else than the user's chain",
+                            f"{key}  [data set {di}]", want, f"{got} via {ast.unparse(val)[:300]}", rp)
+                break
     by_n = {r[0]: r for r in mod.R}
     env_base = {k: getattr(mod, k) for k in ("add_offset", "ratio", "scale2", "Info", "Pair")}
     for nn, root, how, stages, term, src in index:
